@@ -53,6 +53,11 @@ EXPONENTS = [-300, -100, -10, -5, -4, -3, -2, -1, 0, 1, 2, 5, 15, 16, 17, 22,
              100, 300]
 
 
+def decoy():
+    from mc.lib import decoy as decoy_mod
+    decoy_mod.functions()
+
+
 def BOUND(tier):
     return ('4 datasets x 8 parameter files x {rise, curves}; %d float '
             'format classes x {rise, recession} writers'
